@@ -168,6 +168,14 @@ func cmdCheck(args []string) int {
 		}
 		for _, x := range res.Contracts {
 			usedContracts[x] = true
+			if hn := w.contractHarnessByTarget(x); hn != nil {
+				switch {
+				case hn.Kind == "extern":
+					assumed["contract of "+x+" is trusted ("+hn.Name+")"] = true
+				case len(hn.Props) == 0:
+					assumed["contract of "+x+" is assumed here: its harness "+hn.Name+" is not yet discharged under any property"] = true
+				}
+			}
 		}
 		warnings = append(warnings, res.Warnings...)
 		if len(res.Obls) == 0 {
@@ -389,4 +397,13 @@ func globalAssumptions() []string {
 		"netip.Addr values carry no IPv6 zone",
 		"recursive spec functions terminate (they are executed natively in replays)",
 	}
+}
+
+func (w *World) contractHarnessByTarget(name string) *Harness {
+	for _, h := range w.harnesses {
+		if h.Target != nil && fnName(h.Target) == name {
+			return h
+		}
+	}
+	return nil
 }
